@@ -297,7 +297,7 @@ def observe(rec, data, model, climate, cycle, flag, months, stage):
                           "%s vs observable %s" % (an.shape, x.shape))
     if ok_an:
         if flag:
-            rec.equal(an, x, "anomaly_is_windowed_observable" + kind + sfx)
+            rec.equal(an, x, "flagged_anomaly_is_windowed_observable" + sfx)
         else:
             # zero mean in every phase
             worst = 0.0
